@@ -25,7 +25,8 @@ class C16(BaseCheck):
   REQUIRED_CLASSES = ('singleton', 'refcount', 'shared', 'concurrent-first-requests', 'replaced-after-failure',
                       'surplus-close', 'reopen-after-last-close', 'same-key', 'different-key',
                       'underlying-closed-while-held', 'underlying-state-changes',
-                      'requester-abandoned-while-opening', 'several-holders', 'holder-gone-before-connect')
+                      'requester-abandoned-while-opening', 'several-holders', 'holder-gone-before-connect',
+                      'surplus-close-from-inside-close', 'underlying-close-raises')
   QUICK_CASES = 1500
   THOROUGH_CASES = 120000
   QUICK_WALL = 180
@@ -323,12 +324,23 @@ class C16(BaseCheck):
 
       def Close(self):
         log.append(('close', None))
+        how = close_behaviour[0]
+        close_behaviour[0] = None
+        if how == 'reenter':
+          # tearing the connection down fails a pending request whose handler closes its client
+          # again: a surplus Close() of the shared sink from inside the last Close()
+          classes.add('surplus-close-from-inside-close')
+          rc.Close()
+        elif how == 'raise':
+          classes.add('underlying-close-raises')
+          raise OSError(107, 'Transport endpoint is not connected')
 
       def AsyncProcessRequest(self, *a):
         pass
 
       def AsyncProcessResponse(self, *a):
         pass
+    close_behaviour = [None]
     under = Under()
     rc = RefCountedSink(under)
     holders = rng.randint(1, 6)
@@ -362,7 +374,13 @@ class C16(BaseCheck):
           out.violate('refcount:open-result', 'holder got a different open result than the first holder', {})
         count += 1
       else:
-        rc.Close()
+        if count == 1 and rng.random() < 0.3:
+          close_behaviour[0] = rng.choice(['reenter', 'raise'])
+        try:
+          rc.Close()
+        except OSError:
+          pass        # the underlying Close() error reaches the closing holder; the sink is closed all the same
+        close_behaviour[0] = None
         closes = sum(1 for e in log if e[0] == 'close') - closes_before
         out.obligations += 1
         if count == 0:
